@@ -533,7 +533,9 @@ pub proof fn lemma_c05_v1_unknown(l: Seq<u8>, k: int)
 #[verifier::rlimit(60)]
 pub proof fn lemma_c05_v1(l: Seq<u8>, a: V1Addresses, k: int)
     requires wf_line(l, a), 0 <= k < l.len(), vstd::utf8::valid_utf8(l.subrange(0, k))
-    ensures v1v_incomplete(entry_verdict_str(l.subrange(0, k)))
+    ensures v1v_incomplete(entry_verdict_str(l.subrange(0, k))),
+        v1_window(l.subrange(0, k)) =~= l.subrange(0, k),
+        k > 0 ==> l[0] == 80u8,
 {
     broadcast use crate::prelude::prelude_str_axioms;
     broadcast use crate::prelude::prelude_utf8_axioms;
